@@ -75,6 +75,8 @@ def build(case: dict[str, Any]) -> tuple[EnOptConfig, AffineEvaluator, PluginMan
         cfg["samplers"] = [{"method": "design/fixed"}]
     else:
         cfg["samplers"] = [{"method": case["sampler"]["method"], "shared": case["sampler"]["shared"]}]
+        if case["sampler"].get("assign"):  # explicit per-variable assignment (all to sampler 0), also for fixed variables
+            cfg["gradient"]["samplers"] = [0] * n
     transforms = None
     if case["scales"] is not None:
         transforms = OptModelTransforms(variables=VariableScaler(np.array(case["scales"]), np.array(case["offsets_v"])))
@@ -118,10 +120,12 @@ def run_case(case: dict[str, Any]) -> dict[str, Any]:  # noqa: C901, PLR0912, PL
         if case["split"] in (True, "same"):
             (fres,) = ens.calculate(x, compute_functions=True, compute_gradients=False)
             (gres,) = ens.calculate(x, compute_functions=False, compute_gradients=True)
-        elif case["split"] in ("near", "far"):
+        elif case["split"] in ("near", "far", "fixed-far"):
             # history: functions at a neighbouring point first, then a gradient-only request at x
             shift = (1e-6 if case["split"] == "near" else 0.3) * (1.0 + np.abs(x))
             x0 = np.where(mask0, x + shift, x)
+            if case["split"] == "fixed-far":  # the two points differ in the fixed variables only (if there are any)
+                x0 = np.where(mask0, x, x + shift) if not mask0.all() else x + shift
             (fres,) = ens.calculate(x0, compute_functions=True, compute_gradients=False)
             both = ens.calculate(x, compute_functions=False, compute_gradients=True)
             gres = both[-1]
@@ -152,6 +156,7 @@ def run_case(case: dict[str, Any]) -> dict[str, Any]:  # noqa: C901, PLR0912, PL
               f"weighted objective gradient {g_w.tolist()} != sum w_k g_k {exp_w.tolist()}", case)
 
     pv = np.asarray(gres.evaluations.perturbed_variables)
+    check(bool(np.all(pv[..., ~mask] == x[~mask])), "fixed-perturbed", "fixed variables were perturbed", case)
     d_all = (pv - x)[..., mask]  # (R, P, n_free)
     lb, ub = np.asarray(cfg.variables.lower_bounds), np.asarray(cfg.variables.upper_bounds)
     info["hit_bound"] = bool(np.any(pv <= lb) or np.any(pv >= ub))
@@ -272,7 +277,8 @@ def hypothesis_shard(item: dict[str, Any]) -> Collector:
                 blocks.append(m.tolist())
             sampler: dict[str, Any] = {"kind": "design", "shape": shape, "samples": blocks}
         else:
-            sampler = {"kind": "builtin", "method": draw(st.sampled_from(BUILTIN)), "shared": draw(st.booleans())}
+            sampler = {"kind": "builtin", "method": draw(st.sampled_from(BUILTIN)), "shared": draw(st.booleans()),
+                       "assign": draw(st.booleans())}
         f_n = 0 if merge else draw(st.sampled_from([0, 0, 1]))
         filters = []
         if f_n:
@@ -295,7 +301,7 @@ def hypothesis_shard(item: dict[str, Any]) -> Collector:
             "rmin": draw(st.integers(0, r_n)), "pmin": draw(st.integers(1, p_n)),
             "slopes": [draw(val) for _ in range(r_n * (k_n + c_n) * n)],
             "offsets": [draw(val) for _ in range(r_n * (k_n + c_n))],
-            "split": draw(st.sampled_from([False, False, "same", "same", "near", "far"])),
+            "split": draw(st.sampled_from([False, False, "same", "same", "near", "far", "fixed-far"])),
             "scales": [draw(st.sampled_from([0.5, 2.0, 10.0, 1.0])) for _ in range(n)] if scaled else None,
             "offsets_v": [draw(st.sampled_from([0.0, 1.0, -2.0])) for _ in range(n)] if scaled else None,
         }
